@@ -48,6 +48,70 @@ func filterFns(n string) bool {
 	return false
 }
 
+const unitsText = "the functions this property rests on use row positions in the unit their sinks need (block-relative into per-block arrays/bitmaps; absolute into buffers, whole-collection bitmaps, lookup tables, the cursor and the offset-taking API)"
+
+func fnsel(prefixes ...string) func(string) bool {
+	return func(n string) bool {
+		for _, p := range prefixes {
+			if strings.HasPrefix(n, p) {
+				return true
+			}
+		}
+		return false
+	}
+}
+
+var reserveFns = fnsel("(*column.Txn).rollback", "(*column.Txn).insert", "(*column.Collection).free", "(*column.Collection).next", "(*column.Txn).commitMarkers", "(*column.Txn).Insert", "(*column.Txn).DeleteAt", "(*column.Txn).deleteAt", "(*column.Txn).DeleteAll")
+
+func applyUnitFns(kinds ...string) func(string) bool {
+	return func(n string) bool {
+		for _, k := range kinds {
+			switch k {
+			case "numeric":
+				if strings.HasPrefix(n, "column.make") && strings.HasSuffix(n, "$2") {
+					return true
+				}
+			case "string":
+				if strings.HasPrefix(n, "(*column.columnString).Apply") {
+					return true
+				}
+			case "enum":
+				if strings.HasPrefix(n, "(*column.columnEnum).Apply") {
+					return true
+				}
+			case "key":
+				if strings.HasPrefix(n, "(*column.columnKey).") || strings.HasPrefix(n, "(column.rwKey).") {
+					return true
+				}
+			case "bool":
+				if strings.HasPrefix(n, "(*column.columnBool).Apply") {
+					return true
+				}
+			case "index":
+				if strings.HasPrefix(n, "(*column.columnIndex).") {
+					return true
+				}
+			case "sortindex":
+				if strings.HasPrefix(n, "(*column.columnSortIndex).") {
+					return true
+				}
+			}
+		}
+		return false
+	}
+}
+
+func anyOf(fs ...func(string) bool) func(string) bool {
+	return func(n string) bool {
+		for _, f := range fs {
+			if f(n) {
+				return true
+			}
+		}
+		return false
+	}
+}
+
 func init() {
 	register(&PropSpec{ID: "C01",
 		Explanation: "Committed values read back exactly — structural part. (C01.arms) arm-effect analysis of the 14 storage Apply loops: per operation type which presence/value/swap effects must and must not occur, same-row addressing, and the read-modify-write shape of Merge; (C01.units) offset-kind analysis: every index into a per-block array/bitmap is block-relative and every offset written to a buffer, whole bitmap, lookup table or cursor is absolute, in all functions of both packages; (U.defs) block arithmetic constants agree; (C01.width) writer/reader/swap byte widths agree per numeric kind; (C01.guard, C01.funnel) point reads are guarded by block existence and the presence bit of the same row; (C01.grow) columns are grown before they are written, including columns created after rows exist; (C03.twopass) every buffer is replayed for the block; (C01.alias) no stored string aliases a pooled buffer; (C01.intern) lossy-hash lookups are validated; (L1) Apply runs under the exclusive latch." + staticNote,
@@ -75,6 +139,7 @@ func init() {
 			ruleIsolation(r)
 			ruleRelease(r)
 			ruleReadersIgnoreBuffers(r)
+			ruleUnits(r, "C02.units", unitsText, 5, reserveFns)
 		}})
 	register(&PropSpec{ID: "C03",
 		Explanation: "Bitmap indexes equal their predicate — structural part. (C03.arms) arm effects of columnIndex.Apply (Put: predicate, set on true edge / clear on false edge; Delete: clear); (C03.twopass) computed columns get a fresh pass over the merge-rewritten buffer after the column itself; (C03.rowdelete) row markers reach every registry entry; (C03.register) computed columns are registered under their own name and in the target's list, and dropped from both; (C03.backfill) index creation back-fills from every block; (C07.abs) every Snapshot implementation emits absolute offsets (the back-fill input); (C03.order) no reader method appends to the buffer being replayed; (C11.order) updates are applied before markers so a put+delete of one row leaves no index bit; (C01.arms) every storage Merge arm swaps the delta for the final value." + staticNote,
@@ -86,6 +151,8 @@ func init() {
 			ruleRowDelete(r)
 			ruleRegister(r)
 			ruleBackfill(r)
+			ruleRegistryLists(r)
+			ruleUnits(r, "C03.units", unitsText, 2, anyOf(applyUnitFns("index"), fnsel("(*column.Collection).CreateIndex")))
 			ruleUnits(r, "C07.abs", "every Snapshot implementation, the state writer and PutBitmap/Chunk.Range hand absolute offsets to the destination buffer and index per-block storage with relative ones", 6, snapshotFns)
 			ruleReplayOrder(r)
 			ruleCommitOrder(r, true, false)
@@ -114,6 +181,7 @@ func init() {
 			ruleCopies(r)
 			ruleWidths(r)
 			ruleReplayOrder(r)
+			ruleUnits(r, "C05.units", unitsText, 3, fnsel("(*commit.", "(commit.", "commit."))
 		}})
 	register(&PropSpec{ID: "C06",
 		Explanation: "Replica convergence — structural part. (L5.emit) every append to logger/recorder happens under the block's exclusive latch, so per block emission order = apply order for all schedules; (C06.emitorder) emission after updates and markers were applied (merges rewritten); (C06.emitfields) the emitted commit names this block, the drawn id and the transaction's buffers; (C06.clone, C05.copy) the channel logger sends a deep clone, the file logger serialises synchronously; (C06.replay) Replay marks the commit's block and queues every non-empty buffer through a transaction; (C03.order) no replay-time append reorders operations; (C01.arms) Merge arms swap in the final value." + staticNote,
@@ -128,6 +196,7 @@ func init() {
 			ruleReplay(r)
 			ruleReplayOrder(r)
 			ruleStorageArms(r)
+			ruleUnits(r, "C06.units", unitsText, 2, fnsel("(*column.Collection).Replay", "(*column.Txn).commit", "(*column.Txn).rangeWrite"))
 		}})
 	register(&PropSpec{ID: "C07",
 		Explanation: "Restore reproduces the collection — structural part. (C07.abs) offset-kind analysis of every Snapshot implementation, the state writer and PutBitmap: absolute offsets into the buffer, relative into per-block storage; (C07.count) the announced buffer count and the buffers written use one predicate; (C13.whole) readState applies each block through its own transaction and only when the block was read completely; (C11.markers) insert markers rebuild the fill list and the count; (U.defs) block arithmetic." + staticNote,
@@ -152,6 +221,7 @@ func init() {
 			ruleRestoreGuard(r)
 			ruleIsolation(r)
 			ruleL4(r)
+			ruleUnits(r, "C08.units", unitsText, 2, anyOf(snapshotFns, fnsel("(*column.Txn).rangeWrite", "(*column.Collection).readChunk")))
 		}})
 	register(&PropSpec{ID: "C09",
 		Explanation: "Concurrent merges are never lost — structural part. (C01.arms …/Merge/rmw) in every Merge arm the old value is loaded from the element that is stored, merged with the delta read from the buffer, and swapped back into the buffer, inside one Apply body; (L1) every Apply runs under the block's exclusive latch on every call path, so the read-modify-write is atomic per block for all schedules; (C09.queue) every Merge accessor queues the delta and reads nothing." + staticNote,
@@ -161,6 +231,7 @@ func init() {
 			ruleStorageArms(r)
 			ruleL1(r, backfillExempt)
 			ruleMergeQueued(r)
+			ruleUnits(r, "C09.units", unitsText, 10, applyUnitFns("numeric", "string"))
 		}})
 	register(&PropSpec{ID: "C10",
 		Explanation: "No half-applied commit visible on a row — static lock discipline. A closure-sensitive must-hold lockset analysis walks every call path from the exported API (SSA, CHA for interface calls, environment-resolved closures) and decides: (L1) every call that applies a commit to a registered column holds the block's exclusive latch; (L2) every client callback invoked after the cursor was positioned holds the block latch; (C10.shard) the shard locked is the block the critical section works on; (C10.single) markers and all column updates of a block are applied inside one critical section; (L0) lock operations are balanced and pair on the same shard. If these hold no interleaving can place a reader's callback between two column updates of one commit on the row's block." + staticNote,
@@ -186,6 +257,7 @@ func init() {
 			ruleIndexArms(r)
 			ruleCommitOrder(r, true, false)
 			ruleRelease(r)
+			ruleUnits(r, "C11.units", unitsText, 5, anyOf(reserveFns, applyUnitFns("numeric", "string", "enum", "key", "bool", "index")))
 		}})
 	register(&PropSpec{ID: "C12",
 		Explanation: "Primary keys behave like a map — structural part. (C12.arms) key column Apply maintains the lookup table: insert on Put with the stored value as key, removal of the row's previous key on overwrite, removal of the stored key on Delete; (C12.paths) guard structure of InsertKey/UpsertKey/QueryKey/DeleteKey/SetKey; (L6) table accessed under the key lock; (C12.atomic) existence test and insertion form one atomic step; (C11.order) a put+delete of one row leaves no table entry." + staticNote,
@@ -197,6 +269,7 @@ func init() {
 			ruleL6(r)
 			ruleKeyAtomic(r)
 			ruleCommitOrder(r, true, false)
+			ruleUnits(r, "C12.units", unitsText, 4, anyOf(applyUnitFns("key"), fnsel("(*column.Txn).InsertKey", "(*column.Txn).UpsertKey", "(*column.Txn).QueryKey", "(*column.Txn).DeleteKey", "(column.Row).Key", "(column.Row).SetKey")))
 		}})
 	register(&PropSpec{ID: "C13",
 		Explanation: "Truncated files never restore silently wrong state — structural skeleton only (the property is mostly about bytes and not applicable to static analysis). (C13.err) error-flow: no error of a read is discarded in Commit.ReadFrom, Buffer.ReadFrom, readChunksFrom, Log.Range, readState, Restore (one exception with reason); (C13.whole) the log callback runs only for completely decoded commits, a block commits only after all its buffers were read, the log is touched only after the state was read." + staticNote,
@@ -229,6 +302,7 @@ func init() {
 			ruleL5emit(r)
 			ruleEmitFields(r)
 			ruleCopies(r)
+			ruleUnits(r, "C15.units", unitsText, 1, fnsel("(*column.Txn).commit", "(*column.Txn).rangeWrite"))
 		}})
 	register(&PropSpec{ID: "C16",
 		Explanation: "Sorted-index iteration complete and ordered — structural part. (C16.cmp) the ordering handed to the tree reads every field of the item; (C16.arms) arm effects of columnSortIndex.Apply; (C16.scan) Ascend scans ascending and filters by the selection; (C04.cursor) cursor positioned; (C01.alias) keys are copies; (C11.order) a put+delete of one row leaves no entry." + staticNote,
@@ -241,6 +315,7 @@ func init() {
 			ruleCursor(r)
 			ruleAlias(r, "sortindex")
 			ruleCommitOrder(r, true, false)
+			ruleUnits(r, "C16.units", unitsText, 2, anyOf(applyUnitFns("sortindex"), fnsel("(*column.Txn).Ascend")))
 		}})
 	register(&PropSpec{ID: "C17",
 		Explanation: "Rows expire only after their deadline — structural part only (all timing is not applicable). (C17.guard) edge-dominance in the cleanup: DeleteAt(row) only under ok ∧ now.After(deadline); ExpiresAt/TTL report a deadline only when stored and non-zero; selection With(expire); (C17.write) writers store now+ttl or 0, Extend is a queued merge; (C17.wiring) expire column created at construction, one cleanup goroutine with the configured interval that stops on close; (C09.queue) merge accessors queue deltas." + staticNote,
@@ -249,6 +324,7 @@ func init() {
 		Run: func(r *Report) {
 			ruleExpire(r)
 			ruleMergeQueued(r)
+			ruleUnits(r, "C17.units", unitsText, 1, fnsel("(*column.Collection).vacuum", "(*column.Txn).DeleteAt", "(column.rwTTL).", "(column.Row).SetTTL", "(column.Row).TTL"))
 		}})
 	register(&PropSpec{ID: "C18",
 		Explanation: "Race/deadlock discipline. The lockset walk (see C10) decides for every call path: (L0) balance; (L1) column Apply under the exclusive latch, index back-fill included; (L2) positioned callbacks under the latch; (L3) every storage access reachable from an API root under the latch; (L4) fill list under the collection mutex, counter atomic-only, commit-id table under mutex/latch; (L6) key table and sorted index under their locks; (L7) cross-block column state is written only under a lock its readers take; (L8) the acquisition-order graph over all paths is acyclic with no re-acquisition and no latch-under-latch; (L9) the registry published through atomic.Value is never edited in place; (L.table) every field of every Column implementation is classified. Necessary conditions for race- and deadlock-freedom over all schedules; not sufficient (abstract locks, no alias analysis across functions, dependencies trusted)." + staticNote,
@@ -266,6 +342,7 @@ func init() {
 			ruleL7(r)
 			ruleL8(r)
 			ruleL9(r)
+			ruleRegistryLists(r)
 		}})
 	register(&PropSpec{ID: "C19",
 		Explanation: "Triggers fire once per committed change with the final value — structural part. (C19.arms) the trigger's Apply loop calls back on every path for Put and Delete, never for Insert/Merge/Skip, one call per operation, with the positioned reader; (C03.twopass) computed pass after the main pass over the rewritten buffer; (C01.arms) every Merge arm swaps ⇒ the trigger sees a Put of the final value; (C03.rowdelete) row deletes reach the trigger's own registry entry once (markers go to cols[0] only); (C02.effects) no Apply outside commit ⇒ nothing on rollback; (C03.order) replay never reorders; (C03.register) CreateTrigger/DropTrigger." + staticNote,
@@ -279,5 +356,6 @@ func init() {
 			ruleEffectsBelowCommit(r)
 			ruleReplayOrder(r)
 			ruleRegister(r)
+			ruleRegistryLists(r)
 		}})
 }
